@@ -3,6 +3,7 @@ import DrummerVerif.Lemmas.C01X
 import DrummerVerif.Lemmas.C01N
 import DrummerVerif.Lemmas.Stamp
 import DrummerVerif.Lemmas.C02Events
+import DrummerVerif.Lemmas.Applied
 /-!
 # C01 — self-healing: the control loop restores every shard after faults stop (PARTIAL: safety invariants and per-round progress lemmas; the convergence bound is decided by the correspondence run, see DESIGN.md)
 
@@ -139,6 +140,94 @@ theorem never_silent_on_a_shard_that_needs_work :
                     (∀ (n : Replica), n ∈ cr.failed → n ∈ restorable cx cr) →
                       ∃ r, r ∈ rs ∧ r.shardId = cr.shard.shardId ∧ r.type = ReqType.create :=
   @_root_.Drummer.maintain_not_silent
+
+/-! ### the delivery chain on the loop model (report → schedule → deliver → execute → report), and the invariant that
+    closes it: no running replica is ahead of its group's history, so every running replica is reported -/
+
+theorem scheduled_request_reaches_its_host :
+    ∀ (l : Loop) (rs : List Request) (db' : DB) (n : Nat),
+      DB.applyRequests l.db rs = Outcome.ok (db', n) →
+        n ≠ 0 →
+          ∀ (r : Request),
+            r ∈ rs →
+              ∀ (l2 : Loop) (k : Nat),
+                Loop.report { db := db', hosts := l.hosts, groups := l.groups, nextVer := l.nextVer, regions := l.regions }
+                      r.raftAddress false =
+                    Outcome.ok (l2, k) →
+                  ∃ h2, Loop.host? l2 r.raftAddress = some h2 ∧ r ∈ h2.queue :=
+  @_root_.Drummer.scheduled_request_is_delivered
+
+theorem delivered_restore_request_starts_the_replica :
+    ∀ (l : Loop) (a : Addr) (h : Host),
+      Loop.host? l a = some h →
+        ∀ (pre post : List Request) (r : Request),
+          h.queue = pre ++ r :: post →
+            r.type = ReqType.create →
+              r.restore = true →
+                r.join = false →
+                  Host.run? h r.shardId = none →
+                    ∀ (ap : Int),
+                      Host.dataGet h r.shardId r.instantiateReplicaId = some ap →
+                        (∀ (x : Request), x ∈ pre → x.shardId = r.shardId → x.type ≠ ReqType.create) →
+                          (∀ (x : Request),
+                              x ∈ post →
+                                ¬(x.shardId = r.shardId ∧
+                                    x.type = ReqType.kill ∧ List.head? x.members = some r.instantiateReplicaId)) →
+                            ∃ h',
+                              Loop.host? (Loop.execute l a) a = some h' ∧
+                                Option.map (fun x => x.id) (Host.run? h' r.shardId) = some r.instantiateReplicaId :=
+  @_root_.Drummer.delivered_restore_runs
+
+theorem delivered_join_request_starts_the_replica :
+    ∀ (l : Loop) (a : Addr) (h : Host),
+      Loop.host? l a = some h →
+        ∀ (pre post : List Request) (r : Request),
+          h.queue = pre ++ r :: post →
+            r.type = ReqType.create →
+              r.join = true →
+                Host.run? h r.shardId = none →
+                  (∀ (x : Request), x ∈ pre → x.shardId = r.shardId → x.type ≠ ReqType.create) →
+                    (∀ (x : Request),
+                        x ∈ post →
+                          ¬(x.shardId = r.shardId ∧
+                              x.type = ReqType.kill ∧ List.head? x.members = some r.instantiateReplicaId)) →
+                      ∃ h',
+                        Loop.host? (Loop.execute l a) a = some h' ∧
+                          Option.map (fun x => x.id) (Host.run? h' r.shardId) = some r.instantiateReplicaId :=
+  @_root_.Drummer.delivered_join_runs
+
+theorem running_member_is_recorded_as_reported_now :
+    ∀ (l l' : Loop) (a : Addr) (lost : Bool) (n : Nat),
+      UniqueShards l.db.image →
+        Loop.report l a lost = Outcome.ok (l', n) →
+          ∀ (h : Host),
+            Loop.host? l a = some h →
+              ∀ (rep : SimReplica),
+                Host.run? h rep.shard = some rep →
+                  (rep.applied < 0 ∨ ∃ g m, Loop.group? l rep.shard = some g ∧ g.hist[Int.toNat rep.applied]? = some m) →
+                    ∀ (c : Shard),
+                      c ∈ l'.db.image.shards →
+                        c.shardId = rep.shard → ∀ (r : Replica), r ∈ c.replicas → r.replicaId = rep.id → r.tick = l.db.tick :=
+  @_root_.Drummer.running_member_is_stamped
+
+theorem applied_index_invariant_is_inductive :
+    ∀ (size : Nat → Nat) (defIds : Nat → List Nat) (l l' : Loop), Loop.AR l → KStep size defIds l l' → Loop.AR l' :=
+  @_root_.Drummer.ar_kstep
+
+theorem applied_index_invariant_from_cold_start :
+    ∀ (l : Loop), l.groups = [] → (∀ (x : Host), x ∈ l.hosts → x.running = [] ∧ x.data = []) → Loop.AR l :=
+  @_root_.Drummer.ar_cold
+
+theorem every_running_replica_is_reported :
+    ∀ (l : Loop),
+      Loop.AR l →
+        ∀ (h : Host),
+          h ∈ l.hosts →
+            ∀ (count : Nat) (rep : SimReplica),
+              Host.run? h rep.shard = some rep →
+                ∃ ci, ci ∈ (Loop.buildReport l h count).shardInfo ∧ ci.shardId = rep.shard ∧ ci.replicaId = rep.id :=
+  @_root_.Drummer.report_lists_every_running_replica
+
 
 end C01
 end Drummer
